@@ -890,6 +890,9 @@ def rule_r7(ctx) -> List[R.Inst]:
                     ra = [iv(x) for x in e0.args[0].args]
                     if all(x is not None for x in ra):
                         v = list(range(*ra))
+                elif isinstance(e0, ast.Call) and call_name(e0) in ("bytes", "frozenset", "set", "tuple", "list") and len(e0.args) == 1 and \
+                        not e0.keywords and isinstance(e0.args[0], ast.Constant) and isinstance(e0.args[0].value, bytes):
+                    v = list(e0.args[0].value)       # frozenset(b"0123456789"): the ints that indexing bytes gives
             if isinstance(v, (bytes, bytearray)):
                 got = set(v)
             elif isinstance(v, str):
